@@ -419,10 +419,14 @@ func (b *tableCompactionBuilder) flush() error {
 
 func (b *tableCompactionBuilder) cleanup() error {
 	if b.tw != nil {
-		if err := b.tw.drop(); err != nil {
+		// Forget the writer even if dropping it fails (the file could not be
+		// removed): it is closed and unusable, and the retry of this
+		// compaction must start a new table instead of touching it again.
+		tw := b.tw
+		b.tw = nil
+		if err := tw.drop(); err != nil {
 			return err
 		}
-		b.tw = nil
 	}
 	return nil
 }
